@@ -115,6 +115,8 @@ theorem wf_invalidate {c : Cache} (h : c.WF) (id : Str) : (c.invalidate id).WF :
   · exact h
   · exact wf_filter h _ _
 
+theorem wf_forget {c : Cache} (h : c.WF) (id : Str) : (c.forget id).WF := wf_filter h _ _
+
 theorem wf_lookupNonExpired {c : Cache} (h : c.WF) (now : Nat) (id : Str) : (c.lookupNonExpired now id).1.WF := by
   unfold Cache.lookupNonExpired
   split
@@ -180,8 +182,9 @@ theorem wf_apply {c : Cache} (h : c.WF) (o : COp) : (o.apply c).WF := by
         · exact h1'
   | clientStore tag addr e =>
     have hs := sessions_foldl_mapCommand tag addr ({ e with tag := tag, addr := addr } : Entry).id
-      ({ e with tag := tag, addr := addr } : Entry).validCommands (c.store { e with tag := tag, addr := addr })
-    have hw := wf_store h { e with tag := tag, addr := addr }
+      ({ e with tag := tag, addr := addr } : Entry).validCommands
+      ((c.forget ({ e with tag := tag, addr := addr } : Entry).id).store { e with tag := tag, addr := addr })
+    have hw := wf_store (wf_forget h ({ e with tag := tag, addr := addr } : Entry).id) { e with tag := tag, addr := addr }
     simp only [COp.apply, clientStore]
     exact ⟨by rw [hs]; exact hw.1, by rw [hs]; exact hw.2⟩
 
@@ -212,6 +215,9 @@ theorem dead_invalidate {c : Cache} (hw : c.WF) {S : Str} {t : Nat} (h : c.DeadA
   split
   · exact h
   · exact dead_filter hw h _ _
+
+theorem dead_forget {c : Cache} (hw : c.WF) {S : Str} {t : Nat} (h : c.DeadAt S t) (id : Str) :
+    (c.forget id).DeadAt S t := dead_filter hw h _ _
 
 theorem dead_lookupNonExpired {c : Cache} (hw : c.WF) {S : Str} {t : Nat} (h : c.DeadAt S t) (now : Nat) (id : Str) :
     (c.lookupNonExpired now id).1.DeadAt S t := by
@@ -322,8 +328,10 @@ theorem dead_apply {c : Cache} (hw : c.WF) {S : Str} {t : Nat} (h : c.DeadAt S t
         · exact h
   | clientStore tag addr e =>
     have hs := sessions_foldl_mapCommand tag addr ({ e with tag := tag, addr := addr } : Entry).id
-      ({ e with tag := tag, addr := addr } : Entry).validCommands (c.store { e with tag := tag, addr := addr })
-    have hd := dead_store h { e with tag := tag, addr := addr } (by simpa [COp.stores] using hno)
+      ({ e with tag := tag, addr := addr } : Entry).validCommands
+      ((c.forget ({ e with tag := tag, addr := addr } : Entry).id).store { e with tag := tag, addr := addr })
+    have hd := dead_store (dead_forget hw h ({ e with tag := tag, addr := addr } : Entry).id)
+      { e with tag := tag, addr := addr } (by simpa [COp.stores] using hno)
     intro e' he'
     apply hd e'
     simp only [COp.apply, clientStore, Cache.get] at he'
